@@ -171,3 +171,44 @@ func vh_C11_chdir() {
 		vAssert(l2[0] == c2[0], "a relative root location is not taken against the current working directory")
 	}
 }
+
+// expansion gives identical results under equivalent spellings (a circular $ref that reaches the root through
+// its file name must come out the same, fragment-only, whatever the spelling of the root location)
+func vh_C11_expand() {
+	kind := vChoose(3, "scheme")
+	seg := vC11Seg("seg", 1)
+	full := []string{"w", seg}
+	canon := vC11Spell(kind, append(full, "root.json"), 0, 0)
+	op := 1 + vChoose(8, "op") // every operator except the working-directory one
+	pos := vChoose(3, "pos")
+	spelled := vC11Spell(kind, append(full, "root.json"), op, pos)
+	rootText := `{"swagger":"2.0","info":{"title":"t","version":"1"},"paths":{},"definitions":{"node":{"properties":{"next":{"$ref":"root.json#/definitions/node"},"other":{"$ref":"sub/o.json#/definitions/O"}}}}}`
+	otherText := `{"definitions":{"O":{"description":"o","items":{"$ref":"../root.json#/definitions/node"}}}}`
+	run := func(base string) ([]byte, bool, []string) {
+		var log []string
+		loader := func(u string) (json.RawMessage, error) {
+			log = append(log, u)
+			if strings.HasSuffix(u, "/root.json") {
+				return json.RawMessage(rootText), nil
+			}
+			if strings.HasSuffix(u, "/sub/o.json") {
+				return json.RawMessage(otherText), nil
+			}
+			return nil, vErrNoDoc
+		}
+		var root Swagger
+		if json.Unmarshal([]byte(rootText), &root) != nil {
+			return nil, false, nil
+		}
+		err := ExpandSpec(&root, &ExpandOptions{RelativeBase: base, PathLoader: loader})
+		out, _ := json.Marshal(root)
+		return out, err == nil, log
+	}
+	o1, ok1, l1 := run(canon)
+	o2, ok2, l2 := run(spelled)
+	vAssert(ok1 == ok2, "expansion succeeds under one spelling of the root location and fails under an equivalent one")
+	if ok1 && ok2 {
+		vAssert(vJSONBytesEq(o1, o2), "expansion gives different results under equivalent spellings of the root location")
+	}
+	vAssert(vSameLog(l1, l2), "equivalent spellings of the root location make the loader see different URLs during expansion")
+}
